@@ -470,7 +470,8 @@ class World:
         self.recipes = []       # per row: [("new", cls, args), ("mut", m) | ("kw", name, val) ...] | None
         self.tokens = {}
         self.last_copy = None   # (x, n) of the last copy
-        self.unsupported = 0
+        self.stats = {}
+        self.clones = set()
 
     # ---- registry (compatible with harness.props.C11.check_invariant)
     def reg(self, obj, kind, recipe=None):
@@ -483,6 +484,9 @@ class World:
 
     def idx(self, obj):
         return None if obj is None else self.ids.get(id(obj), UNKNOWN)
+
+    def stat(self, key):
+        self.stats[key] = self.stats.get(key, 0) + 1
 
     def get(self, i, kinds=None):
         if not (isinstance(i, int) and 0 <= i < len(self.objs)) or self.kinds[i] == "junk":
@@ -640,10 +644,19 @@ class World:
                     kws.append(f"KwStyle {self.style_token(type(x), senc)}")
                 if "label" in d:
                     kws.append(f"KwLabel {clab(label_code(d['label'], type(x).__name__))}")
+        self.stat("copy:of-" + ("collection-with-children" if self.kinds[xi] == "coll" and x._children else
+                                "empty-collection" if self.kinds[xi] == "coll" else self.kinds[xi]))
+        self.stat("copy:" + ("with-parent" if x._parent is not None else "parentless"))
+        self.stat("copy:style-" + ("initialised" if x.__dict__.get("_style") is not None else
+                                   "pending" if x.__dict__.get("_style_kwargs") else "none"))
+        self.stat("copy:path-length-" + ("1" if len(x._position) == 1 else ">1"))
+        if xi in self.clones:
+            self.stat("copy:of-a-copy")
         with warnings.catch_warnings():
             warnings.simplefilter("ignore")
             y = x.copy(**self.copy_kwargs(kw))
         self.reg_copy(xi, y, kw)
+        self.clones.update(i for i in range(n, len(self.objs)) if self.kinds[i] != "junk")
         self.last_copy = (xi, n)
         return f"(CCopy {xi} [{'; '.join(kws)}])"
 
@@ -687,7 +700,7 @@ class World:
             if rebound and written or len(written) > 1:
                 # e.g. rotate about an anchor without padding: rebinds _orientation AND writes into
                 # _position; not expressible as one model operation (search only)
-                self.unsupported += 1
+                self.stat("mut-not-expressible-as-one-model-op(search only)")
                 raise Skip()
             mutate(obj, m)
             self.recipes[i].append(("mut", m))
@@ -993,6 +1006,8 @@ def gen_style(rng, clsname, allow_trace=False):
     kw, d = {}, None
     if rng.random() < 0.6:
         kw["label"] = rng.choice(["a", "b", "c", "a_01", "b_07", "col", clsname, clsname + "_02"])
+        if allow_trace and rng.random() < 0.3:      # search only: labels the model's encoding does not cover
+            kw["label"] = rng.choice(["x9", "col1", "a_", "7", "a__", "a09", "a_1", "_", "b 2", "99"])
     x = rng.random()
     if x < 0.35:
         kw["color"] = rng.choice(["red", "blue", "#00ff00"])
@@ -1437,6 +1452,8 @@ def run_scenario(ops, stats=None):
     except Skip:
         return None
     cls = type(x).__name__
+    if any(not isinstance(getattr(type(x), a, None), property) for a, _ in kw.get("attrs", [])):
+        return None             # not an attribute of this class (only while shrinking)
     n = len(w.objs)
     old = w.live()
     names = kw_names(kw)
@@ -1485,7 +1502,8 @@ def run_scenario(ops, stats=None):
     # (c) parentless; original untouched
     if y.parent is not None or y._parent is not None:
         raise Fail("parentless", cls, "child" if xparent is not None else "root",
-                   f"the copy of a {cls} has parent {y._parent!r}")
+                   f"the copy of a {cls} has a parent (a {type(y._parent).__name__}"
+                   + (" that is not an object of the original world)" if id(y._parent) not in w.ids else ")"))
     if x._parent is not xparent:
         raise Fail("original_untouched", cls, trig, "the parent of the original changed")
     d = diff_snapshot(S0, flat_snapshot(w, old))
@@ -1610,6 +1628,8 @@ def run_scenario(ops, stats=None):
             stats["mutations"] = stats.get("mutations", 0) + 1
     # static sharing, confirmed by a directed mutation through the original
     hits = static_sharing(w, old, new)
+    pref = {"_position": 0, "_style": 1, "_children": 2}
+    hits.sort(key=lambda h: (pref.get(h[1], 3), h[0], h[1]))
     tried = set()
     for oi, oname, nj, nname, kind in hits:
         if (oi, oname) in tried:
@@ -1764,18 +1784,26 @@ def shrink_scenario(ops, clause):
             cand = small[:ci] + [dict(small[ci], kw=trial)] + small[ci + 1:]
             if fails_ops(cand):
                 kw, small = trial, cand
-    # simplify the constructions: no style, single-position path
-    for i, op in enumerate(small):
-        if op["op"] == "new":
-            for simpler in ({"sm": 0, "style": None}, {"args": {k: v for k, v in op["args"].items()
-                                                                if k not in ("orientation",)}}):
-                trial = dict(op)
-                trial.update(simpler)
-                if trial == op:
-                    continue
+    # simplify the constructions: the simplest class, no style, default path
+    def simpler(op):
+        if op["cls"] not in ("Sensor", "Collection"):
+            yield {"op": "new", "cls": "Sensor", "args": {"pixel": [0, 0, 0]}, "sm": op.get("sm", 0),
+                   "style": op.get("style")}
+        if op.get("sm", 0) != 0:
+            yield dict(op, sm=0, style=None)
+        if "position" in op["args"] or "orientation" in op["args"]:
+            yield dict(op, args={k: v for k, v in op["args"].items() if k not in ("orientation", "position")})
+    for i in range(len(small)):
+        if small[i]["op"] != "new":
+            continue
+        progress = True
+        while progress:
+            progress = False
+            for trial in simpler(small[i]):
                 cand = small[:i] + [trial] + small[i + 1:]
                 if fails_ops(cand):
-                    small, op = cand, trial
+                    small, progress = cand, True
+                    break
     return small
 
 
@@ -1857,14 +1885,16 @@ def run(ctx):
             ctx.extra["model_variant"] = {"dead_rows_number_cell0": ph}
             ctx.log(f"model variant: dead rows take part in the cell numbering = {ph}")
         cases, scripts = [], []
-        nrand = ctx.n(250, 4000)
+        nrand = ctx.n(250, 3000)
         for _ in range(nrand):
             try:
-                ops, cops, trace, _ = random_script(ctx.rng, corr=True)
+                ops, cops, trace, w = random_script(ctx.rng, corr=True)
             except Exception as e:      # pylint: disable=broad-except
                 errors.append(f"{type(e).__name__}: {e}\n{traceback.format_exc()[-2000:]}")
                 continue
             cases.append((cops, trace))
+            for key, v in w.stats.items():
+                ctx.bump(key, v)
             scripts.append(ops)
             ctx.case(json.dumps(ops, sort_keys=True), any(op["op"] == "copy" for op in ops))
             for op in ops:
@@ -1913,9 +1943,11 @@ def run(ctx):
 
     def search():
         big = bool(ctx.broken)
-        n = ctx.n(300, 5000) * (6 if big else 1)
+        n = ctx.n(300, 4000) * (6 if big else 1)
         stats, fails, errors = {}, [], []
         for _ in range(n):
+            if len(fails) >= 60:          # plenty of counterexamples: shrink them instead of collecting more
+                break
             ops = random_scenario(ctx.rng)
             ctx.case(json.dumps(ops, sort_keys=True), True)
             ctx.bump("search-scenario")
@@ -1937,7 +1969,7 @@ def run(ctx):
                            f"{len(errors)} scenarios could not be evaluated; first:\n{errors[0]}")
         for k, v in stats.items():
             ctx.bump("search:" + k, v)
-        ctx.log(f"search: {n} scenarios, {len(fails)} with a violated clause")
+        ctx.log(f"search: {ctx.dist.get('search-scenario', 0)} scenarios, {len(fails)} with a violated clause")
         seen = {}
         for ops, f in fails:
             key = f.sig()
